@@ -168,6 +168,10 @@ func isMarker(data []byte) (name string, after []byte) {
 		if data[i-1] == '\r' {
 			data = data[:len(data)-1]
 		}
+	} else if bytes.HasSuffix(data, []byte("\r")) {
+		// A missing final newline is considered present,
+		// so the CR of the final line belongs to a CRLF terminator.
+		data = data[:len(data)-1]
 	}
 	if !bytes.HasSuffix(data, markerEnd) || len(data) < len(marker)+len(markerEnd) {
 		return "", nil
